@@ -47,6 +47,18 @@ CLAIMED["C05"] = dict(
          "(GEOS); the stand-in also checks the shapely contract on the installed version. Floats as reals (mode R).",
     technique=TECH + "; assumed external contracts as abstract shape views; per-type obligations",
 )
+CLAIMED["C11"] = dict(
+    level="proof",
+    text="Closed-form types (TimeStamp, TimeInterval, BoundingBox): the real bodies of buffer_timestamp, buffer_interval, "
+         "buffer_bounding_box_geometry and the dispatch/guard of buffer_geometry are proved to return exactly the widened "
+         "interval/box, accepted by the C03 constructor contracts (valid domain), with lemmas for containment, bounds growth "
+         "clipped at the domain edges and monotonicity; negative buffers rejected two-sidedly. For the six GEOS-backed types "
+         "only dispatch, guard and result validity are proved (relative to an assumed contract of buffer_shapely_geometry).",
+    note="Containment, growth and monotonicity for Point/LineString/Polygon/Multi* live inside GEOS: decided by the bounded "
+         "stand-in buffer_shapes only (two known findings there, see KNOWN_FINDINGS.txt). Trusted: engine, solvers, floats as "
+         "reals, pydantic construction contract, assumed buffer_shapely_geometry contract.",
+    technique=TECH + "; lemmas over contracts; bounded stand-in for the GEOS-backed types",
+)
 ALL = [f"C{n:02d}" for n in range(1, 21)]
 NOT_APPLICABLE = {p: "check not built yet in this session (work in progress; see DESIGN.md section 12 build order)"
                   for p in ALL if p not in CLAIMED}
